@@ -5,6 +5,7 @@
 // The Lean side (lean/Driver/C16.lean) runs Model/Reuse.lean on the same lines; `prog` lines (real instruction streams,
 // Compiler functions through the register allocator) are outside the model and only judged differentially.
 #include <asmjit/x86.h>
+#include <asmjit/a64.h>
 #include <memory>
 #include "vh.h"
 
@@ -15,9 +16,10 @@ namespace {
 struct World {
   std::vector<uint8_t> static_mem;
   std::unique_ptr<CodeHolder> code;
-  std::unique_ptr<x86::Assembler> a0, a1;
-  std::unique_ptr<x86::Builder> b0;
-  std::unique_ptr<x86::Compiler> c0;
+  std::unique_ptr<BaseAssembler> a0, a1;
+  std::unique_ptr<BaseBuilder> b0;
+  std::unique_ptr<BaseCompiler> c0;
+  bool a64 = false;                 // emitter family of this world
   StringLogger hlog;
   StringLogger elog[4];
   std::vector<std::vector<uint8_t>*> noise;
@@ -41,8 +43,9 @@ struct World {
     static_mem.clear();
   }
 
-  void create(bool use_static, size_t static_size) {
+  void create(bool use_static, size_t static_size, bool use_a64) {
     destroy();
+    a64 = use_a64;
     if (use_static) {
       static_mem.assign(static_size, 0xCD);           // deliberately not zero
       code.reset(new CodeHolder(Span<uint8_t>(static_mem.data(), static_mem.size())));
@@ -50,10 +53,18 @@ struct World {
     else {
       code.reset(new CodeHolder());
     }
-    a0.reset(new x86::Assembler());
-    a1.reset(new x86::Assembler());
-    b0.reset(new x86::Builder());
-    c0.reset(new x86::Compiler());
+    if (use_a64) {
+      a0.reset(new a64::Assembler());
+      a1.reset(new a64::Assembler());
+      b0.reset(new a64::Builder());
+      c0.reset(new a64::Compiler());
+    }
+    else {
+      a0.reset(new x86::Assembler());
+      a1.reset(new x86::Assembler());
+      b0.reset(new x86::Builder());
+      c0.reset(new x86::Compiler());
+    }
     hlog.clear();
     for (auto& l : elog) l.clear();
   }
@@ -94,7 +105,7 @@ std::string node_summary(BaseBuilder* b, int& cursor_index, size_t& count) {
     else if (n->is_embed_label()) s += "e" + num(n->as<EmbedLabelNode>()->label_id()) + "/" + num(n->as<EmbedLabelNode>()->data_size());
     else if (n->is_inst()) {
       InstNode* in = n->as<InstNode>();
-      if (in->inst_id() == x86::Inst::kIdJmp && in->op_count() == 1 && in->op(0).is_label())
+      if (in->inst_id() == (W.a64 ? InstId(a64::Inst::kIdB) : InstId(x86::Inst::kIdJmp)) && in->op_count() == 1 && in->op(0).is_label())
         s += "j" + num(in->op(0).as<Label>().id()) + "o" + num(uint32_t(in->options()) & kFormOpts);
       else
         s += "i" + num(in->inst_id());
@@ -107,7 +118,7 @@ std::string node_summary(BaseBuilder* b, int& cursor_index, size_t& count) {
 std::string dump() {
   CodeHolder& code = *W.code;
   std::string c = "code|";
-  c += code.is_initialized() ? (code.arch() == Arch::kX64 ? "x64" : code.arch() == Arch::kX86 ? "x86" : "arch?") : "uninit";
+  c += code.is_initialized() ? (code.arch() == Arch::kX64 ? "x64" : code.arch() == Arch::kX86 ? "x86" : code.arch() == Arch::kAArch64 ? "a64" : "arch?") : "uninit";
   // sections
   c += ";secs=";
   for (Section* s : code.sections()) {
@@ -181,7 +192,13 @@ std::string dump() {
            ":p" + num(b->passes().size());
       if (e->is_compiler()) {
         BaseCompiler* cc = static_cast<BaseCompiler*>(e);
-        c += ":vr" + num(cc->virt_regs().size()) + ":ja" + num(cc->jump_annotations().size()) + ":fn" + (cc->func() ? "1" : "0");
+        // references into the pass arena that must not outlive run_passes(): nodes with pass data, virtual registers
+        // still tied to a work register
+        size_t pd = 0, wr = 0, guard = 0;
+        for (BaseNode* n = b->first_node(); n && guard < 1000000; n = n->next(), guard++) pd += n->has_pass_data() ? 1 : 0;
+        for (VirtReg* v : cc->virt_regs()) wr += v->work_reg() ? 1 : 0;
+        c += ":vr" + num(cc->virt_regs().size()) + ":ja" + num(cc->jump_annotations().size()) + ":fn" + (cc->func() ? "1" : "0") +
+             ":pd" + num(pd) + ":wr" + num(wr);
       }
       aux += ";dirty" + std::to_string(i) + "=" + (b->has_dirty_section_links() ? "1" : "0");
     }
@@ -289,6 +306,71 @@ Error prog_func(x86::Compiler* cc, uint64_t seed, uint32_t n) {
   return first;
 }
 
+// AArch64 instruction stream through the generic emitter interface.
+Error prog_asma(BaseEmitter* be, uint64_t seed, uint32_t n) {
+  if (!be->code()) return Error::kNotInitialized;
+  a64::Emitter* e = be->as<a64::Emitter>();
+  Rng r(seed);
+  auto xr = [&]() { return a64::x(r.below(16)); };
+  auto wr = [&]() { return a64::w(r.below(16)); };
+  std::vector<Label> pending, bound;
+  Error first = Error::kOk;
+  auto note = [&](Error err) { if (err != Error::kOk && first == Error::kOk) first = err; };
+  for (uint32_t i = 0; i < n; i++) {
+    switch (r.below(11)) {
+      case 0: note(e->mov(xr(), Imm(int64_t(r.next() >> r.below(60))))); break;
+      case 1: note(e->add(xr(), xr(), xr())); break;
+      case 2: note(e->add(wr(), wr(), Imm(r.below(4096)))); break;
+      case 3: note(e->ldr(xr(), a64::ptr(xr(), int32_t(r.below(512)) * 8))); break;
+      case 4: { Label l = e->new_label(); pending.push_back(l); note(e->cbz(xr(), l)); break; }
+      case 5: { Label l = e->new_label(); pending.push_back(l); note(e->b(l)); break; }
+      case 6: if (!bound.empty()) { note(e->b_ne(bound[r.below(uint32_t(bound.size()))])); } break;
+      case 7: if (!pending.empty()) { Label l = pending.back(); pending.pop_back(); note(e->bind(l)); bound.push_back(l); } break;
+      case 8: { uint32_t v = uint32_t(r.next()); note(e->embed(&v, 4)); break; }
+      case 9: if (!bound.empty()) { note(e->adr(xr(), bound[r.below(uint32_t(bound.size()))])); } break;
+      case 10: { Label l = e->new_label(); pending.push_back(l); note(e->adr(xr(), l)); break; }
+    }
+  }
+  while (!pending.empty()) { Label l = pending.back(); pending.pop_back(); note(e->bind(l)); note(e->nop()); }
+  return first;
+}
+
+// One AArch64 Compiler function through the register allocator.
+Error prog_funca(a64::Compiler* cc, uint64_t seed, uint32_t n) {
+  if (!cc->code()) return Error::kNotInitialized;
+  Rng r(seed);
+  Error first = Error::kOk;
+  auto note = [&](Error err) { if (err != Error::kOk && first == Error::kOk) first = err; };
+  FuncNode* fn = cc->add_func(FuncSignature::build<int, int, int>());
+  if (!fn) return Error::kOutOfMemory;
+  uint32_t nv = 3 + r.below(30);       // more live values than registers => spills
+  std::vector<a64::Gp> v;
+  for (uint32_t i = 0; i < nv; i++) v.push_back(r.below(3) ? cc->new_gp32() : cc->new_gp64());
+  fn->set_arg(0, v[0].w());
+  fn->set_arg(1, v[1].w());
+  for (uint32_t i = 2; i < nv; i++) note(cc->mov(v[i].w(), Imm(int32_t(r.below(1000)))));
+  Label exit_l = cc->new_label();
+  std::vector<Label> fwd;
+  for (uint32_t i = 0; i < n; i++) {
+    a64::Gp a = v[r.below(nv)], b = v[r.below(nv)], c = v[r.below(nv)];
+    switch (r.below(7)) {
+      case 0: note(cc->add(a.w(), b.w(), c.w())); break;
+      case 1: note(cc->mul(a.w(), b.w(), c.w())); break;
+      case 2: note(cc->eor(a.w(), b.w(), c.w())); break;
+      case 3: { Label l = cc->new_label(); fwd.push_back(l); note(cc->cmp(a.w(), Imm(int32_t(r.below(100))))); note(cc->b_lt(l)); break; }
+      case 4: if (!fwd.empty()) { note(cc->bind(fwd.back())); fwd.pop_back(); } break;
+      case 5: note(cc->cbz(a.w(), exit_l)); break;
+      case 6: note(cc->add(a.w(), b.w(), Imm(r.below(64)))); break;
+    }
+  }
+  while (!fwd.empty()) { note(cc->bind(fwd.back())); fwd.pop_back(); }
+  note(cc->bind(exit_l));
+  for (uint32_t i = 1; i < nv; i++) note(cc->add(v[0].w(), v[0].w(), v[i].w()));
+  note(cc->ret(v[0].w()));
+  note(cc->end_func());
+  return first;
+}
+
 // ---- protocol -------------------------------------------------------------------------------------------------
 
 std::string step(const std::string& line) {
@@ -303,15 +385,16 @@ std::string step(const std::string& line) {
   if (op == "world") {
     bool st = w.size() > 1 && w[1] == "static";
     uint64_t sz = 4096;
-    if (w.size() > 2) vh::parse_u64(w[2], sz);
-    W.create(st, size_t(sz));
+    bool use_a64 = false;
+    for (size_t k = 2; k < w.size(); k++) { if (w[k] == "a64") use_a64 = true; else vh::parse_u64(w[k], sz); }
+    W.create(st, size_t(sz), use_a64);
     return "ok";
   }
   if (!W.code) return "no-world";
   CodeHolder& code = *W.code;
 
   if (op == "init") {
-    Environment env(w.size() > 1 && w[1] == "x86" ? Arch::kX86 : Arch::kX64);
+    Environment env(w.size() > 1 && w[1] == "x86" ? Arch::kX86 : w.size() > 1 && w[1] == "a64" ? Arch::kAArch64 : Arch::kX64);
     return err_name(code.init(env));
   }
   if (op == "reset") { code.reset(w.size() > 1 && w[1] == "hard" ? ResetPolicy::kHard : ResetPolicy::kSoft); return "ok"; }
@@ -371,7 +454,7 @@ std::string step(const std::string& line) {
     uint64_t id;
     if (w.size() < 3 || !vh::parse_u64(w[2], id)) return "bad-op";
     Label l; l.set_id(uint32_t(id));
-    return err_name(e->emit(x86::Inst::kIdJmp, l));
+    return err_name(W.a64 ? e->emit(a64::Inst::kIdB, l) : e->emit(x86::Inst::kIdJmp, l));
   }
   if (op == "elabel") {
     uint64_t id, sz;
@@ -397,13 +480,13 @@ std::string step(const std::string& line) {
   }
   if (op == "vreg") {
     if (!e->is_compiler()) return "bad-emitter";
-    x86::Gp r;
-    Error err = static_cast<x86::Compiler*>(e)->_new_reg(Out<Reg>(r), TypeId::kInt32, nullptr);
+    Reg r;
+    Error err = static_cast<BaseCompiler*>(e)->_new_reg(Out<Reg>(r), TypeId::kInt32, nullptr);
     return err == Error::kOk ? "v" + num(Operand::virt_id_to_index(r.id())) : err_name(err);
   }
   if (op == "jann") {
     if (!e->is_compiler()) return "bad-emitter";
-    JumpAnnotation* ja = static_cast<x86::Compiler*>(e)->new_jump_annotation();
+    JumpAnnotation* ja = static_cast<BaseCompiler*>(e)->new_jump_annotation();
     return ja ? "j" + num(ja->annotation_id()) : std::string("j-");
   }
   if (op == "finalize") return err_name(e->finalize());
@@ -414,13 +497,21 @@ std::string step(const std::string& line) {
     Label bad; bad.set_id(0xFFFFu);
     switch (k % 3) {
       case 0: return err_name(e->bind(bad));
-      case 1: return err_name(e->emit(x86::Inst::kIdMov, x86::eax, x86::rbx));
-      default: return err_name(e->emit(x86::Inst::kIdJmp, bad));
+      case 1: return err_name(W.a64 ? e->emit(a64::Inst::kIdAdd, a64::w0, a64::x1) : e->emit(x86::Inst::kIdMov, x86::eax, x86::rbx));
+      default: return err_name(W.a64 ? e->emit(a64::Inst::kIdB, bad) : e->emit(x86::Inst::kIdJmp, bad));
     }
   }
   if (op == "prog") {
     uint64_t seed, n;
     if (w.size() < 5 || !vh::parse_u64(w[3], seed) || !vh::parse_u64(w[4], n)) return "bad-op";
+    if (W.a64) {
+      if (w[2] == "asmx") return err_name(prog_asma(e, seed, uint32_t(n)));
+      if (w[2] == "func") {
+        if (!e->is_compiler()) return "bad-emitter";
+        return err_name(prog_funca(static_cast<a64::Compiler*>(e), seed, uint32_t(n)));
+      }
+      return "bad-op";
+    }
     if (w[2] == "asmx") return err_name(prog_asmx(e, seed, uint32_t(n)));
     if (w[2] == "func") {
       if (!e->is_compiler()) return "bad-emitter";
